@@ -15,9 +15,13 @@ empty string is a visible token).
   sink pre x<class word> x<source line>          -> x<fragment>  (`preLine`)
   sink dirrow|filerow <x<prefix>|-> x<item>      -> x<fragment>  (`rowLink` of `dirRowUrl` / `fileRowUrl`)
   dirurl|fileurl <x<prefix>|-> x<item>           -> x<unescaped link>  (`dirRowUrl`, `fileRowUrl`)
+  guards x<hex>                                  -> <printable><noCtl><textSafe> x<metaOf>   (three 0/1 digits:
+                                                    the guards of the reader theorems; the markup skeleton)
+  entities xml|html                              -> x<entity> x<entity> …   (`xmlEntities`, `htmlEntities`)
 -/
 import GrcovModel.Escape
 import GrcovModel.Drv.Common
+import GrcovModel.Drv.C18Links
 namespace Grcov.Drv.C18
 open Grcov.Escape Grcov.Drv
 
@@ -110,6 +114,21 @@ def handleUrl (f : Option Bytes → Bytes → Bytes) : List String → String
     | _, _ => "bad-op"
   | _ => "bad-op"
 
+/-- the guards of the reader theorems and the markup skeleton (review 2, item 33: they occur in theorem
+statements, so they are tied like every other executable definition) -/
+def handleGuards : List String → String
+  | [a] => match arg a with
+    | some s =>
+      let b := fun (x : Bool) => if x then "1" else "0"
+      b (printable s) ++ b (noCtl s) ++ b (textSafe s) ++ " " ++ out (metaOf s)
+    | none => "bad-op"
+  | _ => "bad-op"
+
+def handleEntities : List String → String
+  | ["xml"] => joinWith " " (xmlEntities.map out)
+  | ["html"] => joinWith " " (htmlEntities.map out)
+  | _ => "bad-op"
+
 def step (line : String) : String :=
   match line.trimAscii.toString.splitOn " " with
   | "xmlattr" :: args => enc xmlAttr args
@@ -130,7 +149,11 @@ def step (line : String) : String :=
   | "sink" :: args => handleSink args
   | "dirurl" :: args => handleUrl dirRowUrl args
   | "fileurl" :: args => handleUrl fileRowUrl args
+  | "guards" :: args => handleGuards args
+  | "entities" :: args => handleEntities args
   | "scheme" :: args => enc (fun u => if hasScheme u then [49] else [48]) args
+  | "links.serve" :: args => Grcov.Drv.C18Links.handleServe args
+  | "links.fixed" :: args => Grcov.Drv.C18Links.handleFixed args
   | _ => "bad-op"
 
 end Grcov.Drv.C18
